@@ -13,6 +13,7 @@ Definition bstr_print (b : bstr) : list byte := match b with BStr l => l end.
 Declare Scope bstr_scope.
 Delimit Scope bstr_scope with bstr.
 String Notation bstr bstr_parse bstr_print : bstr_scope.
+Bind Scope bstr_scope with bstr.
 Definition hexval (b : byte) : Z :=
   let n := Z.of_N (Byte.to_N b) in if n <? 58 then n - 48 else n - 87.
 Fixpoint hx_go (l : list byte) : list Z :=
@@ -70,12 +71,16 @@ Definition world_of (t : tables) : world :=
 (* ---- operations and observations ------------------------------------------------------------------ *)
 Inductive cop := ODeliver (p : bytes) | OComplete (fid : Z) | OSettle.
 
-(* after every operation: (number of replies so far, number of auth_completed() calls, dead) *)
+(* after every OSettle: (number of replies so far, number of auth_completed() calls, dead) *)
 Definition snap := (Z * Z * bool)%type.
 Definition zcount {A} (l : list A) : Z := Z.of_nat (length l).
 Definition snap_of (s : st) : snap := (zcount (out s), zcount (completed_as s), dead s).
+(* once the connection is gone only that fact is compared: tasks that were already scheduled when the
+   implementation decided to disconnect still run one step before _cleanup cancels them (their packets
+   go nowhere, but application callbacks are still invoked); the model stops at once *)
 Definition snap_eqb (a b : snap) : bool :=
-  let '(a1, a2, a3) := a in let '(b1, b2, b3) := b in (a1 =? b1) && (a2 =? b2) && Bool.eqb a3 b3.
+  let '(a1, a2, a3) := a in let '(b1, b2, b3) := b in
+  Bool.eqb a3 b3 && (a3 || ((a1 =? b1) && (a2 =? b2))).
 
 Fixpoint run_ops (w : world) (sid : bytes) (fixed : bool) (ops : list cop) (s : st) : st * list snap * bool :=
   match ops with
@@ -87,7 +92,7 @@ Fixpoint run_ops (w : world) (sid : bytes) (fixed : bool) (ops : list cop) (s : 
                         | OSettle => settle w sid fixed 200 s
                         end in
       let '(s2, tr, oof2) := run_ops w sid fixed r s1 in
-      (s2, snap_of s1 :: tr, oof || oof2)
+      (s2, match o with OSettle => snap_of s1 :: tr | _ => tr end, oof || oof2)
   end.
 
 Definition reply_eqb (a b : reply) : bool :=
@@ -120,11 +125,20 @@ Definition enf_eqb (a b : option bytes * bool * bool) : bool :=
   let '(a1, a2, a3) := a in let '(b1, b2, b3) := b in
   option_eqb zlist_eqb a1 b1 && Bool.eqb a2 b2 && Bool.eqb a3 b3.
 
+Fixpoint uprefix (a b : list user) : bool :=
+  match a, b with
+  | [], _ => true
+  | x :: a', y :: b' => zlist_eqb x y && uprefix a' b'
+  | _, [] => false
+  end.
+
+(* [a] = model, [b] = implementation; on a dead connection the implementation may have made further
+   application callbacks (see snap_eqb), never fewer *)
 Definition obs_eqb (a b : obs) : bool :=
   let '(a1, a2, a3, a4, a5, a6, a7) := a in
   let '(b1, b2, b3, b4, b5, b6, b7) := b in
-  list_eqb reply_eqb a1 b1 && (a2 =? b2) && (a3 =? b3) && list_eqb zlist_eqb a4 b4 && list_eqb zlist_eqb a5 b5 &&
-  Bool.eqb a6 b6 && option_eqb enf_eqb a7 b7.
+  list_eqb reply_eqb a1 b1 && (a2 =? b2) && (a3 =? b3) && Bool.eqb a6 b6 && option_eqb enf_eqb a7 b7 &&
+  (if a6 then uprefix a4 b4 && uprefix a5 b5 else list_eqb zlist_eqb a4 b4 && list_eqb zlist_eqb a5 b5).
 
 (* one case: variant, world, session id, operations, per-operation snapshots, final observation, and for a
    list of users what the harness's own (Python) evaluation of the specification [granted] says *)
